@@ -6,6 +6,7 @@ import (
 	"fmt"
 	"math"
 	"strings"
+	"verif/harness/exprpos"
 
 	"github.com/runreveal/pql/parser"
 
@@ -125,6 +126,21 @@ func generate(w *mon.W) {
 			}
 		}
 	}
+	// long tokens that end in a run of bytes which are not character starts
+	// (UTF-8 continuation bytes, invalid bytes), terminated and not, where an
+	// error message names or abbreviates them
+	for _, tail := range []string{"\x80", "\xbf", "\xa0", "\xff", "\xc3", "\xe2\x80"} {
+		for _, k := range []int{1, 3, 39, 40, 41, 64, 100} {
+			for _, pre := range []int{0, 1, 43, 44, 45, 100, 300} {
+				body := strings.Repeat("a", pre) + strings.Repeat(tail, k)
+				for _, tok := range []string{"'" + body, "\"" + body, "`" + body, "'" + body + "'", "`" + body + "`", body} {
+					for _, tmpl := range []string{"T | take %s", "T | where a == %s\n| count", "T | %s", "let x = %s", "T | join kind=%s (U) on k"} {
+						do(strings.ReplaceAll(tmpl, "%s", tok))
+					}
+				}
+			}
+		}
+	}
 	seeds := gen.Seeds()
 	for _, s := range seeds {
 		do(s)
@@ -145,6 +161,57 @@ func generate(w *mon.W) {
 		for _, tmpl := range []string{"let z = %s; T | take 1", "let z = %s; T | where a == z", "let z = -%s; T | where z[1] == -z", "T | where a == %s", "T | where a == -%s", "T | take %s", "T | top %s by a",
 			"T | extend %s", "T | project %s", "T | where %s[1] == 2", "T | join (U) on $left.a == %s", "T | summarize count() by %s", "T | sort by %s", "T | where strcat(%s, %s) in (%s)", "T | where not(%s) and isnull(%s)"} {
 			do(strings.ReplaceAll(tmpl, "%s", k))
+		}
+	}
+	// the workloads of the other checks, for totality: whatever any check feeds
+	// the code is also fed here, where a panic or a hang is the verdict
+	{
+		urng := gen.RNG(w.Seed, "c12union")
+		nU := w.Pick(2_500, 120_000)
+		sg := &gen.Syn{Rng: urng}
+		for i := 0; i < nU && !w.Stopped(); i++ {
+			do(pqlref.Print(gen.SynProgram(sg, i), gen.LayoutFor(int64(i), i%3)).Src)
+		}
+		for i := 0; i < nU && !w.Stopped(); i++ {
+			g := &gen.ExprGen{Rng: urng, Cols: gen.DefaultCols(), IllTyped: 8, Agg: i%7 == 0}
+			pos := exprpos.Positions[i%len(exprpos.Positions)]
+			if pos == "let" || pos == "let-chain" {
+				g.NoCols = true
+			}
+			x := g.Gen(gen.Ty(urng.Intn(3)), 1+urng.Intn(6))
+			if pos == "join-on" || pos == "join-on-nested" {
+				x = exprpos.Joinify(x, nil, urng)
+			}
+			do(pqlref.Print(exprpos.Build(pos, pqlref.Parenthesize(x, func() bool { return urng.Intn(5) == 0 })), pqlref.Layout{Mode: 0}).Src)
+		}
+		vg := &gen.Valid{Rng: urng}
+		for i := 0; i < nU/2 && !w.Stopped(); i++ {
+			do(pqlref.Print(vg.Program(), pqlref.Layout{Mode: 0}).Src)
+		}
+		kinds := append(append([]string{}, gen.Kinds...), "join", "join")
+		for i := 0; i < nU/2 && !w.Stopped(); i++ {
+			var seq []string
+			for k := 1 + urng.Intn(7); k > 0; k-- {
+				seq = append(seq, kinds[urng.Intn(len(kinds))])
+			}
+			pg := &gen.PipeGen{Rng: urng, DetSort: 50}
+			p, _ := pg.Pipe("T", seq, 2)
+			do(pqlref.Print(&pqlref.Program{Stmts: []*pqlref.Stmt{{Pipe: p}}}, gen.LayoutFor(int64(i), i%3)).Src)
+		}
+		for i := 0; i < nU && !w.Stopped(); i++ {
+			var sb strings.Builder
+			for n := 1 + urng.Intn(30); n > 0; n-- {
+				sb.WriteString(gen.Lexicon[urng.Intn(len(gen.Lexicon))])
+				if urng.Intn(2) == 0 {
+					sb.WriteString([]string{" ", "\n", "\t", " // x\n", ""}[urng.Intn(5)])
+				}
+			}
+			do(sb.String())
+		}
+		for _, lit := range append(append([]string{}, gen.IntSpellings...), gen.Lexicon...) {
+			for _, tmpl := range []string{"T | take %s", "T | where a == -%s", "let n = %s; T | top n by a", "T | where m[%s] == 1", "T | extend %s", "T | where %s", "T | sort by %s desc | project %s", "%s"} {
+				do(strings.ReplaceAll(tmpl, "%s", lit))
+			}
 		}
 	}
 	// The known finding: exponential let expansion (demonstrated, expected to
